@@ -323,6 +323,11 @@ def main(argv):
     except subprocess.TimeoutExpired as e:
         print("INCONCLUSIVE property=%s: timeout %s" % (prop, e))
         rc = 2
+    except Exception:   # a defect of the machinery is never a verdict
+        import traceback
+        traceback.print_exc()
+        print("INCONCLUSIVE property=%s: internal error of the check (see traceback)" % prop)
+        rc = 2
     finally:
         if rc != 2 or ctx.violations:
             try:
